@@ -58,6 +58,13 @@ class StreamingDetector(ABC):
         if isinstance(X, DataFrame):
             # The first update with a dataframe will constrain subsequent input.
             if self._input_cols is None:
+                if self._input_col_dim is not None and (
+                    len(X.columns) != self._input_col_dim
+                ):
+                    # earlier non-dataframe input already fixed the dimension
+                    raise ValueError(
+                        "Column-dimension of new data must match prior data."
+                    )
                 self._input_cols = X.columns
                 self._input_col_dim = len(self._input_cols)
             elif self._input_cols is not None:
